@@ -19,7 +19,9 @@ var VariablesInAllowedPositionRule = Rule{
 
 			// todo: move me into walk
 			// If there is a default non nullable types can be null
-			if value.VariableDefinition.DefaultValue != nil && value.VariableDefinition.DefaultValue.Kind != ast.NullValue {
+			// a nullable variable may be used in a non-null position when either the variable or the position has a default
+			hasNonNullVariableDefault := value.VariableDefinition.DefaultValue != nil && value.VariableDefinition.DefaultValue.Kind != ast.NullValue
+			if hasNonNullVariableDefault || value.ExpectedTypeHasDefault {
 				if value.ExpectedType.NonNull {
 					tmp.NonNull = false
 				}
